@@ -88,7 +88,7 @@ class C18(Plugin):
                     u = rng.choice(["http://unknown.org/1", "urn:x:1", "http://ex0.org"])
                 queries.append([u, int(rng.random() < 0.8)])
             headers = [gen_header(rng) for _ in range(12)]
-            yield [recs, "", queries, headers]
+            yield [recs, "", queries, headers, []]
 
     def observe(self, case):
         import rdflib
@@ -98,10 +98,21 @@ class C18(Plugin):
         from curies.mapping_service import MappingServiceGraph, MappingServiceSPARQLProcessor, get_flask_mapping_app
         from curies.mapping_service.utils import handle_header
 
-        recs, _, queries, headers = case
+        recs, _, queries, headers = case[:4]
         used = {c for r in recs for u in [r[1], *r[3]] for c in u} | {c for q in queries for c in q[0]}
-        case = [recs, "".join(sorted(c for c in used if c in _invalid_uri_chars)), queries, headers]
         c = curies.Converter(qprops.mk_records(recs))
+        # the property speaks about "the syntactically valid members of expand_all(compress(u))": those two answers of the
+        # implementation travel with the case
+        renderings = []
+        for u, _ip in queries:
+            try:
+                x = c.compress(u)
+                ea = c.expand_all(x) if x is not None else None
+            except Exception:
+                ea = None
+            renderings.append(None if ea is None else Some(list(ea)))
+            used |= {ch for v in (ea or []) for ch in v}
+        case = [recs, "".join(sorted(ch for ch in used if ch in _invalid_uri_chars)), queries, headers, renderings]
         graph = MappingServiceGraph(converter=c)
         proc = MappingServiceSPARQLProcessor(graph=graph)
         SAME = "http://www.w3.org/2002/07/owl#sameAs"
